@@ -79,7 +79,7 @@ CHECKS["C16"] = {
     "jobs": [
         rapid_job("default", "./verifh/c16", "TestDefaultEqual", 30000, 200000),
         rapid_job("tolerance", "./verifh/c16", "TestTolerance|TestDurationWithinP|TestToleranceExtremes", 30000, 200000),
-        rapid_job("resource", "./verifh/c16", "TestValueEquivalence|TestCollectionEquivalence|TestEquivalenceWithFilteredView|TestLaggingSubscriberEquivalence", 3000, 20000),
+        rapid_job("resource", "./verifh/c16", "TestValueEquivalence|TestCollectionEquivalence|TestEquivalenceWithFilteredView|TestLaggingSubscriberEquivalence|TestToleranceWithFilteredView", 3000, 20000),
     ],
 }
 
@@ -95,6 +95,7 @@ CHECKS["C17"] = {
     "assumptions": ["completion order is observed through goroutine exit of executeEach's member wrapper (runtime.Stack)", "a member's context is checked at the moment it is released"],
     "jobs": [
         enum_job("exhaustive", "./verifh/c17", "TestGroupExhaustive", shards={Q: 6, T: 12}, timeout={Q: 600, T: 1800}),
+        enum_job("caller-context", "./verifh/c17", "TestGroupCallerContextDone"),
         rapid_job("random", "./verifh/c17", "TestGroupRandom", 1500, 8000, shards_t=8),
         rapid_job("trait-groups", "./verifh/c17", "TestTraitGroups", 800, 5000, shards_t=8),
     ],
@@ -378,6 +379,7 @@ CHECKS["C14"] = {
     "jobs": [
         rapid_job("triples", "./verifh/c14", "TestTripleSweep", 1500, 8000, shards={"quick": 8, "thorough": 16}, timeout={"quick": 600, "thorough": 3000}),
         rapid_job("stalled-reader", "./verifh/c14", "TestStalledReader", 3, 20, shards={"quick": 1, "thorough": 1}, timeout={"quick": 600, "thorough": 3000}),
+        rapid_job("fanspeed-steps", "./verifh/c14", "TestFanSpeedSmallSteps", 150, 1000, shards={"quick": 2, "thorough": 8}, timeout={"quick": 600, "thorough": 3000}),
         rapid_job("light-fade", "./verifh/c14", "TestLightFadeInterrupted", 6, 25, shards={"quick": 4, "thorough": 8}, timeout={"quick": 600, "thorough": 3000}),
         rapid_job("stream-churn", "./verifh/c14", "TestPullStreamChurn", 30, 120, shards={"quick": 3, "thorough": 8}, timeout={"quick": 600, "thorough": 3000}),
     ],
